@@ -159,8 +159,17 @@ async fn run_history(max_sessions: usize, evs: &[Ev], settle: Duration, ev: &mut
             Ev::Garbage(i) => {
                 if !live.is_empty() {
                     let mut k = live.remove(i % live.len());
-                    // a header with a bad protocol id: that session ends, nobody else is disturbed
-                    let _ = k.s.write_all(&[0, 1, 0x12, 0x34, 0, 6, 1, 3, 0, 0, 0, 1]).await;
+                    // input that ends a session (C05): bad protocol id, zero length, length above 254,
+                    // 300 bytes of 0xFF: that session ends, nobody else is disturbed
+                    let kind = (step + i) % 4;
+                    let garbage: Vec<u8> = match kind {
+                        0 => vec![0, 1, 0x12, 0x34, 0, 6, 1, 3, 0, 0, 0, 1],
+                        1 => vec![0, 2, 0, 0, 0, 0, 1, 3, 0, 0, 0, 1],
+                        2 => vec![0, 3, 0, 0, 0x01, 0x2C, 1, 3, 0, 0, 0, 1],
+                        _ => vec![0xFF; 300],
+                    };
+                    ev.class(format!("garbage_kind|{}", ["bad_protocol_id", "zero_length", "length_300", "ff_x300"][kind]));
+                    let _ = k.s.write_all(&garbage).await;
                     match expect_closed(&mut k.s, wait).await {
                         Probe::Closed => {}
                         other => {
